@@ -44,8 +44,9 @@ class BatchRepeatLinearOperator(LinearOperator):
     ) -> Float[LinearOperator, "*batch N N"]:
         from linear_operator.operators.triangular_linear_operator import TriangularLinearOperator
 
-        res = self.base_linear_op.cholesky(upper=upper)._tensor
-        res = res.repeat(*self.batch_repeat, 1, 1)
+        res = self.base_linear_op.cholesky(upper=upper)
+        # diagonal / identity factors are triangular operators without a wrapped `_tensor`
+        res = getattr(res, "_tensor", res).repeat(*self.batch_repeat, 1, 1)
         return TriangularLinearOperator(res, upper=upper)
 
     def _cholesky_solve(
